@@ -590,8 +590,15 @@ func c14Baseline(c *Ctx, p *Prog) {
 	for _, g := range p.Funcs(btabRel) {
 		for _, st := range storesToField(g, baselineF) {
 			nLink++
-			if ex, ok := st.Val.(*ssa.Extract); ok {
-				if lk, ok := ex.Tuple.(*ssa.Lookup); ok {
+			// the looked-up cell: the first result of a comma-ok lookup, or a plain lookup (a missing key yields nil)
+			var lkv *ssa.Lookup
+			if ex, ok := st.Val.(*ssa.Extract); ok && ex.Index == 0 {
+				lkv, _ = ex.Tuple.(*ssa.Lookup)
+			} else if l2, ok := st.Val.(*ssa.Lookup); ok {
+				lkv = l2
+			}
+			if lkv != nil {
+				if lk := lkv; lk != nil {
 					// key literal {k.Row, baselineCfg}
 					if la := loadAddr(lk.Index); la != nil {
 						if al, ok := la.(*ssa.Alloc); ok {
